@@ -126,3 +126,31 @@ Print Assumptions C01_code_request_transfer_exit_request.
 Theorem C01_code_clear_did_request : forall did, fn_clear_did_request did = payload_of (dddi_clear_make (Some did)).
 Proof. exact tie_clear_did_request. Qed.
 Print Assumptions C01_code_clear_did_request.
+
+(* ---- the code is the model: request_download / request_upload (explicit 16/8-bit formats, with and without a data format identifier),
+   dynamically_define_did by source DID with one and two entries (Gen/Fn_More2.v) ---- *)
+From UDS Require Import Gen.Fn_More2 Proofs.Tie_memory_echo Proofs.Tie_more2.
+Theorem C01_code_request_download_request : forall cfg a s, no_server_formats cfg ->
+  fn_request_download_request a s = payload_of (rud_make cfg false a s (Some 16) (Some 8) None).
+Proof. exact tie_request_download_request. Qed.
+Print Assumptions C01_code_request_download_request.
+Theorem C01_code_request_upload_request : forall cfg a s, no_server_formats cfg ->
+  fn_request_upload_request a s = payload_of (rud_make cfg true a s (Some 16) (Some 8) None).
+Proof. exact tie_request_upload_request. Qed.
+Print Assumptions C01_code_request_upload_request.
+Theorem C01_code_request_download_dfi_request : forall cfg a s cm en, no_server_formats cfg ->
+  fn_request_download_dfi_request a s cm en = payload_of (rud_make cfg false a s (Some 16) (Some 8) (Some (cm, en))).
+Proof. exact tie_request_download_dfi_request. Qed.
+Print Assumptions C01_code_request_download_dfi_request.
+Theorem C01_code_request_upload_dfi_request : forall cfg a s cm en, no_server_formats cfg ->
+  fn_request_upload_dfi_request a s cm en = payload_of (rud_make cfg true a s (Some 16) (Some 8) (Some (cm, en))).
+Proof. exact tie_request_upload_dfi_request. Qed.
+Print Assumptions C01_code_request_upload_dfi_request.
+Theorem C01_code_define_by_did_1_request : forall cfg did src pos size,
+  fn_define_by_did_1_request did src pos size = payload_of (dddi_define_make cfg did (DefByDid [(src, pos, size)])).
+Proof. exact tie_define_by_did_1_request. Qed.
+Print Assumptions C01_code_define_by_did_1_request.
+Theorem C01_code_define_by_did_2_request : forall cfg did src pos size src2 pos2 size2,
+  fn_define_by_did_2_request did src pos size src2 pos2 size2 = payload_of (dddi_define_make cfg did (DefByDid [(src, pos, size); (src2, pos2, size2)])).
+Proof. exact tie_define_by_did_2_request. Qed.
+Print Assumptions C01_code_define_by_did_2_request.
